@@ -773,7 +773,7 @@ def check_c02(res, ctx):
 def check_c10(res, ctx):
     r = ctx.rng
     lines = []
-    nq = 1500 if ctx.tier == "quick" else 80000
+    nq = 4000 if ctx.tier == "quick" else 80000
     for i in range(nq):
         lines.append(gen.rhistory(r, r.choice([5, 10, 30, 80, 200]) if i % 7 else 200, small=(i % 3 == 0)))
     if ctx.tier != "quick":
@@ -846,7 +846,7 @@ def rcs_line(r, nadds):
 
 def check_c11(res, ctx):
     r = ctx.rng
-    lines = [rcs_line(r, r.choice([0, 1, 2, 3, 5, 8, 12, 20, 40])) for _ in range(800 if ctx.tier == "quick" else 40000)]
+    lines = [rcs_line(r, r.choice([0, 1, 2, 3, 5, 8, 12, 20, 40])) for _ in range(2500 if ctx.tier == "quick" else 40000)]
     lines += [rcs_line(r, 300) for _ in range(3 if ctx.tier == "quick" else 30)]
     compare(res, ctx, lines, "c11 column-slice histories",
             oracle=lambda l, h: ("leak: " + h[-20:]) if not h.endswith("live=0") else None,
@@ -1855,7 +1855,7 @@ def check_c05(res, ctx):
 
 def check_c12(res, ctx):
     r = ctx.rng
-    n = 500 if ctx.tier == "quick" else 40000
+    n = 1500 if ctx.tier == "quick" else 40000
     lines = []
     for i in range(n):
         k = i % 5
@@ -1888,7 +1888,7 @@ def check_c12(res, ctx):
 def check_c14(res, ctx):
     r = ctx.rng
     scen = []
-    nsc = 40 if ctx.tier == "quick" else 2000
+    nsc = 100 if ctx.tier == "quick" else 2000
     mdops = {}
     for i in range(nsc):
         k = i % 5
